@@ -3,10 +3,12 @@
 //!   vcheck <Cxx> [quick|thorough]
 //!   vcheck --replay <file>
 
+mod c01;
 mod c02;
 mod c03;
 mod c04;
 mod c05;
+mod c06;
 mod c07;
 mod c08;
 mod c09;
@@ -51,10 +53,12 @@ fn main() {
         let case = doc.get("case").cloned().unwrap_or(json::J::Null);
         println!("replaying {} key={}", prop, doc.get("key").and_then(|v| v.as_str()).unwrap_or("?"));
         let code = match prop {
+            "C01" => c01::replay(&case),
             "C02" => c02::replay(&case),
             "C03" => c03::replay(&case),
             "C04" => c04::replay(&case),
             "C05" => c05::replay(&case),
+            "C06" => c06::replay(&case),
             "C07" => c07::replay(&case),
             "C08" => c08::replay(&case),
             "C09" => c09::replay(&case),
@@ -84,10 +88,12 @@ fn main() {
         _ => Tier::Quick,
     };
     let code = match args[0].as_str() {
+        "C01" => c01::run(tier),
         "C02" => c02::run(tier),
         "C03" => c03::run(tier),
         "C04" => c04::run(tier),
         "C05" => c05::run(tier),
+        "C06" => c06::run(tier),
         "C07" => c07::run(tier),
         "C08" => c08::run(tier),
         "C09" => c09::run(tier),
